@@ -99,6 +99,7 @@ type world struct {
 	beaconDB *cp.DB
 	histDB   *cp.DB
 	peers    []*peer // index = version class 1, 0, 2 -> peers[0] pv [0,1], peers[1] pv [0], peers[2] pv [2]
+	noip     *peer   // a sender whose record has no ip / udp entries
 	lightAPI *beacon.PortalLightApi
 	srv      *rpc.Server
 	started  bool
@@ -261,6 +262,18 @@ func newWorld(rng *rand.Rand, live bool) (*world, error) {
 		rp.D5.RegisterTalkHandler(string(portalwire.Utp), func(_ *enode.Node, _ *net.UDPAddr, msg []byte) []byte { return nil })
 		w.peers = append(w.peers, p)
 	}
+	// a sender whose record has no address entries (sweep mutant E/26-C01: the connection id for a large answer was built from
+	// the record's endpoint instead of the packet's source address)
+	if rp, err := netsim.NewRawPeerNoIP(w.sw, "10.0.0.66", 9066, seededKey(rng)); err == nil {
+		rp.LN.Set(enr.WithEntry("pv", []uint8{0, 1}))
+		rp.LN.Set(portalwire.Tag)
+		w.noip = &peer{RawPeer: rp, name: "noip", ver: 1, script: map[string][]byte{}, lookup: map[string][]byte{}}
+		for name, id := range protoOf {
+			name, id := name, id
+			rp.D5.RegisterTalkHandler(string(id), func(_ *enode.Node, _ *net.UDPAddr, msg []byte) []byte { return w.noip.answer(name, msg) })
+		}
+		rp.D5.RegisterTalkHandler(string(portalwire.Utp), func(_ *enode.Node, _ *net.UDPAddr, msg []byte) []byte { return nil })
+	}
 	return w, nil
 }
 
@@ -282,6 +295,9 @@ func (w *world) close() {
 	}
 	for _, p := range w.peers {
 		p.Close()
+	}
+	if w.noip != nil {
+		w.noip.Close()
 	}
 	w.d5.Close()
 }
